@@ -30,6 +30,12 @@ func validatePerBlockReward(r interface{}) error {
 		if len(rr.Denom) == 0 {
 			return fmt.Errorf("denom of per block reward can not be empty")
 		}
+		if err := sdk.ValidateDenom(rr.Denom); err != nil {
+			return fmt.Errorf("invalid per block reward: %w", err)
+		}
+		if rr.Amount.IsNil() {
+			return fmt.Errorf("invalid per block reward: amount of %s is missing", rr.Denom)
+		}
 		if rr.IsNegative() {
 			return fmt.Errorf("invalid per block reward: %v", rr)
 		}
